@@ -382,6 +382,15 @@ class World:
                         # the worker itself awaits flush(): legal (a running task is never among what flush gathers)
                         self.label("worker-awaits-flush")
                         tm.in_aflush = True
+                        if tm.pending:
+                            # a cancellation (its own, earlier in this step) is still on its way: it arrives inside flush()'s
+                            # gather, which then cancels what flush awaits - like a cancellation of somebody inside flush()
+                            self.label("worker-enters-flush-with-cancellation-pending")
+                            pm.fault_seen = True
+                            for o in pm.tasks.values():
+                                if o is not tm and not o.finished() and not o.forgotten and (o.in_cb or o.body_done or not o.started):
+                                    o.stray_ok = True
+                                    o.disturbed = True
                         try:
                             await self.flush_inline({"op": "flush", "pool": pm.idx, "re": True})
                         finally:
@@ -389,7 +398,9 @@ class World:
                     elif kind == "op":
                         self.in_user += 1
                         try:
-                            self.exec_embedded(step[1], {"where": "worker", "task": tm, "req": rm})
+                            # a suspension point of the worker's own that is certain to come (flush() need not suspend)
+                            later = any(x[0] == "wait" or (x[0] == "yield" and x[1] >= 1) for x in script[sp + 1:])
+                            self.exec_embedded(step[1], {"where": "worker", "task": tm, "req": rm, "suspends_later": later})
                         finally:
                             self.in_user -= 1
                 except asyncio.CancelledError:
@@ -643,6 +654,28 @@ class World:
         if spec.get("as_list"):
             rm.pulled = -1  # not observable
             return list(elems)
+        if spec.get("hint") is not None:
+            hint = spec["hint"]
+
+            class Hinted:
+                """A one-shot iterator that also answers operator.length_hint() - with a wrong number (a hint is only a hint)."""
+
+                def __init__(self_inner) -> None:
+                    self_inner.g = None
+
+                def __iter__(self_inner) -> Any:
+                    rm.iter_calls += 1
+                    return self_inner
+
+                def __next__(self_inner) -> Any:
+                    if self_inner.g is None:
+                        self_inner.g = gen()
+                    return next(self_inner.g)
+
+                def __length_hint__(self_inner) -> int:
+                    return hint
+            world.label("iterable:wrong-length-hint")
+            return Hinted()
         if spec.get("as_cursor"):
             class Cursor:
                 """An iterable that is not its own iterator: asking it for an iterator is observable (and must not happen for a rejected request)."""
